@@ -81,7 +81,7 @@ def one(job):
             out = os.path.join(d, f"out_{tag}.pcapng")
             env = dict(base_env)
             env.update(env_extra)
-            p = subprocess.run([sys.executable, "-W", "ignore", "-m", "tlexport.main", "-i", cap] + (["-s", kl] if keys else []) + ["-o", out] + list(args),
+            p = subprocess.run([sys.executable, "-W", "ignore", "-m", "tlexport.main", "-i", cap] + (["-s", kl if keys is True else keys] if keys else []) + ["-o", out] + list(args),
                                cwd=cwd, env=env, stdout=subprocess.PIPE, stderr=subprocess.PIPE, text=True, timeout=300)
             outs[tag] = (p.returncode, sha(out))
         sub = os.path.join(d, "elsewhere")
@@ -110,6 +110,12 @@ def one(job):
         for tag in ("nos_envkeys", "nos_envmissing"):
             if outs[tag] != ref_nos:
                 fails.append(f"nondeterministic:{tag}: {outs[tag]} vs the run without -s in a clean environment {ref_nos}")
+        # … and with -s naming a file that does not exist: the run ends the same way whatever SSLKEYLOGFILE says
+        absent = os.path.join(d, "absent.log")
+        cli("absent", {"PYTHONHASHSEED": "0"}, tool.REPO, keys=absent)
+        cli("absent_envkeys", {"PYTHONHASHSEED": "0", "SSLKEYLOGFILE": kl}, sub, keys=absent)
+        if outs["absent_envkeys"] != outs["absent"]:
+            fails.append(f"nondeterministic:absent_envkeys: {outs['absent_envkeys']} vs the run with the same missing -s file in a clean environment {outs['absent']}")
         # in-process repetition: A, A  and  B, A
         o1, o2, o3, o4 = (os.path.join(d, f"rep{i}.pcapng") for i in range(4))
         a = lambda o: ["-i", cap, "-s", kl, "-o", o] + list(args)
